@@ -35,6 +35,13 @@ func (e *Engine) registerGhosts(st *State) {
 	e.initHeap("G_bank_supply", "Int")
 	e.heapSorts["G_staking_bonded"] = "Int"
 	e.initHeap("G_staking_bonded", "Int")
+	e.heapSorts["G_staking_epoch"] = "Int"
+	e.initHeap("G_staking_epoch", "Int")
+	if vt := e.prog.lookupType(stakingT + ".Validator"); vt != nil {
+		g := &ghostRef{name: "G_staking_validators", kind: "map", kt: types.NewSlice(types.Typ[types.Uint8]), vt: vt, ksort: "BV", vsort: e.vc.sortOf(vt)}
+		e.ghosts[g.name] = g
+		e.declGhost(g)
+	}
 	e.vc.assume(app(">=", e.heapInit["G_staking_bonded"], "0"))
 	// every collections field of every keeper struct in /repo
 	for _, pkg := range e.prog.Pkgs {
@@ -508,6 +515,9 @@ func (e *Engine) ghostConst(name string, env *evalEnv) (Val, bool) {
 		return Val{S: e.bankSupply(env.st), T: specInt}, true
 	case "staking.bonded":
 		return Val{S: e.heap(env.st, "G_staking_bonded", "Int"), T: specInt}, true
+	case "staking.validators":
+		g := e.ghosts["G_staking_validators"]
+		return Val{S: e.heap(env.st, g.name+"_v", e.heapSorts[g.name+"_v"]), T: ghostMapT, G: g, GSt: env.st}, true
 	}
 	parts := strings.Split(name, ".")
 	if len(parts) == 2 {
@@ -644,6 +654,10 @@ func (e *Engine) specFunc(y *ECall, env *evalEnv) (Val, bool) {
 	case "lower":
 		e.vc.declFun("str_lower", []string{"Str"}, "Str")
 		return Val{S: app("str_lower", arg(0).S), T: types.Typ[types.String]}, true
+	case "accbytes":
+		// accbytes(s): the address bytes that the bech32 string s decodes to
+		e.declAddrStr()
+		return Val{S: app("accbv", arg(0).S), T: bvT}, true
 	case "addrstr":
 		e.declAddrStr()
 		return Val{S: app("addr_str", arg(0).S), T: addrT}, true
@@ -659,6 +673,29 @@ func (e *Engine) specFunc(y *ECall, env *evalEnv) (Val, bool) {
 		return Val{S: app("numval16", arg(0).S), T: specInt}, true
 	case "zerotime":
 		return Val{S: timeZeroNs, T: specInt}, true
+	case "ndelegations":
+		e.declStaking()
+		return Val{S: app("dels_len", e.stakingEpoch(env.st), arg0addr(e, arg(0), env)), T: specInt}, true
+	case "delegation":
+		e.declStaking()
+		dt := e.prog.lookupType(stakingT + ".Delegation")
+		return Val{S: app("dels_at", e.stakingEpoch(env.st), arg0addr(e, arg(0), env), arg(1).S), T: dt}, true
+	case "valaddr":
+		e.declStaking()
+		return Val{S: app("valbv", arg(0).S), T: bvT}, true
+	case "tokens_from_shares":
+		// tokens_from_shares(validator, shares): Validator.TokensFromShares as a Dec mantissa
+		v := arg(0)
+		ss := e.vc.structInfo(v.T)
+		return Val{S: e.tokensFromShares(app(fieldSel(ss, "Tokens"), v.S), app(fieldSel(ss, "DelegatorShares"), v.S), arg(1).S, false), T: specInt}, true
+	case "iterk":
+		if l, ok := y.Args[0].(*ELit); ok {
+			return Val{S: e.heap(env.logState(), "iterk_"+l.Val, "Int"), T: specInt}, true
+		}
+	case "iterstopped":
+		if l, ok := y.Args[0].(*ELit); ok {
+			return Val{S: e.heap(env.logState(), "iterstopped_"+l.Val, "Bool"), T: specBool}, true
+		}
 	case "get0":
 		// get0(store, key): the stored value, or the zero value when the key is absent (what layer code uses after ErrNotFound)
 		if len(y.Args) == 2 {
@@ -727,4 +764,14 @@ func (e *Engine) sdkCtxSort() string {
 		}
 	}
 	return "Iface"
+}
+
+func arg0addr(e *Engine, v Val, env *evalEnv) string {
+	if v.T == addrT {
+		return v.S
+	}
+	if v.Log {
+		return app("addr_acc", e.bvOf(env.logState(), v))
+	}
+	return app("addr_acc", e.bvOf(env.st, v))
 }
